@@ -28,7 +28,9 @@ start times, any clock rate) **and every arithmetic** (no theorem inspects the f
   partition the notes, pattern groups partition the rhythm groups, exactly the notes carry rhythm data;
 * the evaluator-time lookups (`previous_note`, `next_note`, `previous_mono`, `previous_color_change`,
   `next_color_change`, the colour window) stay in range; the colour data of an object points at the
-  streak that contains it.
+  streak that contains it;
+* every repeating pattern, rhythm group and pattern group is referenced by an object, i.e. strongly
+  held: no `Weak::upgrade` can meet a dead pointer (`taiko_weak_targets_are_held`).
 -/
 
 namespace Rosu.C05e
@@ -170,6 +172,23 @@ theorem taiko_rhythm_structure (A : Arith T) (st : Store T) (hn : ∀ p ∈ st.n
       pgi.length = pgs.length ∧ pgr.length = pgs.length ∧ rh.length = st.objects.length ∧
       ∀ p (h : p < rh.length), rh[p].isSome = true ↔ p ∈ st.notes :=
   rhythmOf_full A st hn
+
+/-- **No `Weak` of the graph can be dead.**  After `create_difficulty_objects` the only strong pointers are:
+the store → the objects; an object → its repeating hit pattern, its rhythm group, its pattern group; a
+repeating pattern → its alternating patterns → their mono streaks.  Every repeating pattern, every
+rhythm group and every pattern group is referenced by at least one object (and an object's rhythm data
+points at the groups that contain it), so every node of the graph is strongly reachable from the store
+for as long as the `TaikoDifficultyObjects` live — identifying `Weak::upgrade` with index validity, as
+the model does, loses nothing. -/
+theorem taiko_weak_targets_are_held (A : Arith T) (clock : T) (objs : List (Obj T)) (p : Pre T)
+    (h : preprocess A clock objs = some p) :
+    (∀ k : Nat, k < p.reps.length → ∃ q : Nat, ∃ c : ColourOf, p.colour[q]? = some c ∧ c.1 = k) ∧
+    (∀ q g r : Nat, p.rhythm[q]? = some (some (g, r)) →
+      (∃ rg : RGroup T, p.rgroups[g]? = some rg ∧ q ∈ rg.members) ∧
+        (∃ pg : List Nat, p.pgroups[r]? = some pg ∧ g ∈ pg)) ∧
+    (∀ g : Nat, g < p.rgroups.length → ∃ q r : Nat, p.rhythm[q]? = some (some (g, r))) ∧
+    (∀ r : Nat, r < p.pgroups.length → ∃ q g : Nat, p.rhythm[q]? = some (some (g, r))) :=
+  preprocess_live A clock objs p h
 
 /-! ### The hypotheses of the theorems above are satisfiable (and satisfied by what the code builds) -/
 
